@@ -521,3 +521,51 @@ def make_fault_matrix_script(rng, name, kind=None):
         g.emit("len"); g.emit("iter"); g.emit(f"get {pres}"); g.emit(f"contains {ab}")
     g.emit("dropmap")
     return f"=== {name} plan={plan} nkeys=64\n" + "\n".join(g.lines) + "\n"
+
+
+def make_removal_script(rng, name, kind=None):
+    """C10: retain / extract_if / drain on collision runs (tombstones arise WHILE the operation
+    erases), with keep / selection sets none, one, some, all and every early-drop point; afterwards
+    the emptied or thinned table is refilled and observed (len, capacity, iteration, lookups)."""
+    kind = kind or rng.choice(["map-drop", "map-plain"])
+    plan = rng.choice(["zero", "max", "lowpos", "twotags", "wrap", "sametag", "mix", "seq"])
+    n = rng.choice([3, 7, 9, 14, 16, 17, 24, 28, 33, 40, 56, 57])
+    g = Gen(rng, n + 6, plan, kind)
+    g.resync = False; g.many = False; g.forget = False
+    g.header()
+    for rnd in range(rng.choice([1, 2, 3])):
+        for k in range(n):
+            if k not in g.contents:
+                g.op_insert(k)
+        if rng.random() < 0.4 and g.contents:
+            for k in rng.sample(list(g.contents), rng.randrange(1, max(2, len(g.contents) // 3))):
+                g.op_remove(k)
+        live = list(g.contents)
+        c = rng.choice(["retain", "retain", "extractif", "extractif", "drain"])
+        if c == "retain":
+            mode = rng.choice(["none", "one", "some", "all"])
+            keep = [] if mode == "none" else ([rng.choice(live)] if mode == "one" and live else ([x for x in live if rng.random() < 0.5] if mode == "some" else live))
+            bump = rng.randrange(3)
+            g.emit(f"retain {bump} " + " ".join(map(str, keep)))
+            g.contents = {x: (g.contents[x][0], (g.contents[x][1] + bump) & M64) for x in keep}
+        elif c == "extractif":
+            mode = rng.choice(["none", "one", "some", "all"])
+            sel = [] if mode == "none" else ([rng.choice(live)] if mode == "one" and live else ([x for x in live if rng.random() < 0.5] if mode == "some" else live))
+            take = rng.choice([0, 1, len(sel) // 2, len(sel), len(sel) + 2])
+            g.emit(f"extractif {take} " + " ".join(map(str, sel)))
+            if take >= len(sel):
+                for x in sel: g.contents.pop(x, None)
+            else:
+                g.emit("iter"); g.emit("len"); g.emit("capacity")
+                g.emit("clear"); g.contents = {}
+        else:
+            g.emit(f"drain {rng.choice([0, 1, len(live) // 2, len(live), len(live) + 3])}"); g.contents = {}
+        g.emit("len"); g.emit("capacity"); g.emit("iter")
+        # refill: bookkeeping errors (growth_left, items) show up as wrong capacity / growth / lookups
+        for k in rng.sample(range(n + 4), min(n + 4, rng.choice([1, 3, n // 2 + 1, n + 4]))):
+            g.op_insert(k)
+            if rng.random() < 0.2: g.emit("capacity")
+        for k in rng.sample(range(n + 4), min(4, n)):
+            g.emit(rng.choice(["get", "contains", "getkv"]) + f" {k}")
+        g.emit("len"); g.emit("capacity"); g.emit("iter")
+    return f"=== {name} plan={plan} nkeys={n + 6}\n" + "\n".join(g.lines) + "\n"
